@@ -679,10 +679,15 @@ class RunLength2dArray(IndexableMixin, np.lib.mixins.NDArrayOperatorsMixin):
             return self._col_sum()
         assert (axis == -1 or axis is None)
         lens = (self._indices[:, 1:]-self._indices[:, :-1])
+        last_len = None if self._row_len is None else self._row_len-self._indices[:, -1]
+        if np.issubdtype(self._values.dtype, np.unsignedinteger):
+            # int64 run lengths times uint64 values would be computed in float64 (inexact beyond 2**53)
+            lens = lens.astype(np.uint64)
+            last_len = None if last_len is None else last_len.astype(np.uint64)
         if self._row_len is None:
             return np.sum(self._values*lens, axis=-1)
         internal_sum = np.sum(self._values[:, :-1] * lens, axis=-1)
-        return internal_sum + self._values[:, -1]*(self._row_len-self._indices[:, -1])
+        return internal_sum + self._values[:, -1]*last_len
 
     def _col_sum(self):
         positions = self._indices.ravel()
